@@ -493,7 +493,20 @@ def rule_relax_agree(crate, prop, tier):
         o.check(False, WHO, "R3-one-flag", "the relaxations do not raise one common `changed` flag")
     # ---- R4 detection pass
     if detect is None:
-        o.undecide(WHO, "R4-detection-loop", "no final pass over the arcs (0..arcs_len or `for arc in &arcs`) was recognised")
+        # without a recognised final pass: a `None` that no strict comparison `dist[..] > sum` dominates is not evidence
+        # of a negative circuit (e.g. "the last round still changed something")
+        nones0 = []
+        for (bb, ii), t in an.stmt_terms.items():
+            st = an.blocks[bb]["stmts"][ii]
+            if st["place"]["local"] == 0 and not st["place"]["proj"] and t[0] == "agg" and t[1] == "adt" and t[2][1] == "None":
+                nones0.append((bb, st["span"]))
+        weak = [(bb, sp) for bb, sp in nones0 if not fx.holds(bb, lambda rel: any(
+            a[0] == "lt" and a[2][0] == "mem" and load_parts(a[2])[0] == "A1.dist" and sum_parts(a[1]) for a in rel.w))]
+        for bb, sp in weak:
+            o.check(False, WHO, "R4-strict-detection", "None is returned without a dominating strict test dist[head] > dist[tail] + w "
+                    "on an arc (there is no final pass over the arcs)", sp)
+        if not weak:
+            o.undecide(WHO, "R4-detection-loop", "no final pass over the arcs (0..arcs_len or `for arc in &arcs`) was recognised")
     else:
         dev, dkind = detect
         o.check(True, WHO, "R4-detection-loop", "")
